@@ -53,6 +53,7 @@ Definition c_bang : N := 33.
 Definition c_dquote : N := 34.
 Definition c_hash : N := 35.
 Definition c_dollar : N := 36.
+Definition c_underscore : N := 95.
 Definition c_lpar : N := 40.
 Definition c_rpar : N := 41.
 Definition c_star : N := 42.
@@ -463,7 +464,8 @@ Section Bodies.
             match term_str2 with
             | [] => perr
             | _ =>
-                match make_logic_var term_str2 with
+                (* the tail may be the anonymous variable: [a | $_] *)
+                match (if str_eqb term_str2 [c_dollar; c_underscore] then POk TAnon else make_logic_var term_str2) with
                 | PErr => perr
                 | POk var =>
                     do l <- link_front var true list;
